@@ -171,3 +171,42 @@ WITNESSES += [
          '        printed = [printer._print(i) for i in self.indices]\n        return "{%s_{%s}}" % (self.name, "".join(printed))'),
     ]),
 ]
+
+WITNESSES += [
+    # the configurable name reaches the constructor through a parameter of an extracted module level helper; the
+    # singleton is imported under another local name
+    dict(id="c18-ok-writer-helper-alias", prop="C18", file="operators.py", expect=None, edits=[
+        ("from .tensor_names import tensor_names\n", "from .tensor_names import tensor_names as names\n"),
+        ("class Operators:\n", "def _matrix(label, upper, lower):\n    return AntiSymmetricTensor(label, upper, lower)\n\n\nclass Operators:\n"),
+        ("        f = AntiSymmetricTensor(tensor_names.fock, (p,), (q,))\n        pq = Fd(p) * F(q)\n        h0 = f * pq",
+         "        f = _matrix(names.fock, (p,), (q,))\n        pq = Fd(p) * F(q)\n        h0 = f * pq"),
+        ("        name = tensor_names.operator\n", "        name = names.operator\n"),
+        ("        v1 = AntiSymmetricTensor(tensor_names.eri, (p, occ), (q, occ))", "        v1 = _matrix(lower=(q, occ), upper=(p, occ), label=names.eri)"),
+        ("        v2 = AntiSymmetricTensor(tensor_names.eri, (p, q), (r, s))", "        v2 = _matrix(names.eri, (p, q), (r, s))"),
+        ("        f = AntiSymmetricTensor(tensor_names.fock, (p,), (q,))\n        piqi = AntiSymmetricTensor(tensor_names.eri, (p, occ), (q, occ))\n        pqrs = AntiSymmetricTensor(tensor_names.eri, (p, q), (r, s))",
+         "        f = _matrix(names.fock, (p,), (q,))\n        piqi = _matrix(names.eri, (p, occ), (q, occ))\n        pqrs = _matrix(names.eri, (p, q), (r, s))"),
+        ("        f = AntiSymmetricTensor(tensor_names.fock, (p,), (q,))\n        piqi = AntiSymmetricTensor(tensor_names.eri, (p, occ), (q, occ))\n        pqrs = AntiSymmetricTensor(tensor_names.eri, (p, q), (r, s))",
+         "        f = _matrix(names.fock, (p,), (q,))\n        piqi = _matrix(names.eri, (p, occ), (q, occ))\n        pqrs = _matrix(names.eri, (p, q), (r, s))"),
+    ]),
+    # ... and the same helper building the wrong class is still seen
+    dict(id="c18-writer-helper-symmetric", prop="C18", file="operators.py", expect="R18a", edits=[
+        ("from .sympy_objects import AntiSymmetricTensor\n", "from .sympy_objects import AntiSymmetricTensor, SymmetricTensor\n"),
+        ("class Operators:\n", "def _matrix(label, upper, lower):\n    return SymmetricTensor(label, upper, lower)\n\n\nclass Operators:\n"),
+        ("        v2 = AntiSymmetricTensor(tensor_names.eri, (p, q), (r, s))", "        v2 = _matrix(tensor_names.eri, (p, q), (r, s))"),
+    ]),
+    dict(id="c18-three-groups-accepted", prop="C18", file=F, expect="R18b",
+         old="        elif len(indices) == 1:  # nonsymtensor\n            base = NonSymmetricTensor(name, import_indices(indices[0]))\n        else:\n            raise RuntimeError(f\"Unknown tensor object: {tensor}\")",
+         new="        else:  # nonsymtensor\n            base = NonSymmetricTensor(name, import_indices(indices[0]))"),
+    dict(id="c18-symbol-as-tensor", prop="C18", file=F, expect="R18b",
+         old="        if len(indices) == 0:  # no indices -> a symbol\n            base = Symbol(name)", new="        if len(indices) == 0:  # no indices -> a symbol\n            base = NonSymmetricTensor(name, [])"),
+    dict(id="c18-amplitude-by-prefix", prop="C18", file=F, expect="R18a",
+         old="            if is_adc_amplitude(name) or is_t_amplitude(name):", new="            if is_adc_amplitude(name) or name.startswith(tensor_names.gs_amplitude):"),
+    dict(id="c18-no-strip", prop="C18", file=F, expect="R18d",
+         old="    expr_string = expr_string.strip()\n    if not expr_string:", new="    if not expr_string:"),
+    dict(id="c18-no-exponent-accepted", prop="C18", file=F, expect="R18d",
+         old="            if unexpected_stuff:\n                raise NotImplementedError(f\"Unexpected NO object: {obj_str}.\")\n", new=""),
+    dict(id="c18-init-target-dropped", prop="C18", file="expr_container.py", expect="R18e",
+         old="        if target_idx is not None:\n            self.set_target_idx(target_idx)\n        # first apply the tensor symmetry", new="        # first apply the tensor symmetry"),
+    dict(id="c18-init-antisym-not-stored", prop="C18", file="expr_container.py", expect="R18e",
+         old="        self._antisym_tensors: set = (set() if antisym_tensors is None\n                                      else set(antisym_tensors))\n", new="        self._antisym_tensors: set = set()\n"),
+]
